@@ -43,7 +43,7 @@ def run(prog, rep):
     rep.rule('R4', 'add_graph stamps and replaces; extract_graph copies node and edge data', floor=4)
     rep.rule('R5', 'JSON writer/reader are a matched pair', floor=1)
     rep.rule('R6', 'identity properties are stamped at creation', floor=4)
-    rep.rule('R7', 'sentinel values the library writes into JSON properties are skipped by graph validation', floor=2)
+    rep.rule('R7', 'sentinel values the library writes into JSON properties are skipped by graph validation', floor=1)   # (2 until the '' written by unmerge_adm was replaced by an unset, /repo fix for C14)
 
     nxi = prog.cls(NXI)
     imod = nxi.module
